@@ -22,7 +22,12 @@ var c07SweepValues = []any{nil, true, false, 0, 1, -1, 1<<53 - 1, 1 << 53, 1<<53
 type c07SweepCase struct {
 	f      *c07Node
 	inputs []any
+	// uncaught: run F on every input on its own, without the try wrapper, at BOTH boundaries: the point of
+	// failure (and, at the CLI, the failing exit status) must be the reference's for every error value.
+	uncaught bool
 }
+
+var c07ErrorValues = []any{nil, false, true, 0, 1.5, -1, "", "x", "a\nb", "break", []any{}, []any{nil}, []any{1}, map[string]any{}, map[string]any{"a": nil}, map[string]any{"__jq": 0}, c07BigPow64}
 
 func c07BuildSweep() []c07SweepCase {
 	var out []c07SweepCase
@@ -45,33 +50,33 @@ func c07BuildSweep() []c07SweepCase {
 	}
 	strs := c07SweepStrings
 	for _, sep := range c07SepPool {
-		out = append(out, c07SweepCase{call("split", c07Quote(sep)), strs})
+		out = append(out, c07SweepCase{f: call("split", c07Quote(sep)), inputs: strs})
 	}
 	flags := []string{"null", `"g"`, `"i"`, `"gi"`, `"x"`, `""`}
 	for _, re := range append(append([]string{}, c07RePool...), c07ReNamedPool...) {
 		q := c07Quote(re)
 		for _, name := range []string{"splits", "test", "match", "capture", "scan"} {
-			out = append(out, c07SweepCase{call(name, q), strs})
+			out = append(out, c07SweepCase{f: call(name, q), inputs: strs})
 		}
 		for _, fl := range flags {
 			for _, name := range []string{"split", "splits", "test", "match", "capture", "scan"} {
-				out = append(out, c07SweepCase{call(name, q, fl), strs})
+				out = append(out, c07SweepCase{f: call(name, q, fl), inputs: strs})
 			}
 		}
 		// a replacement with several outputs multiplies the results per match: only without "g"
-		out = append(out, c07SweepCase{call("sub", q, `(.w // "p", "q")`), strs})
+		out = append(out, c07SweepCase{f: call("sub", q, `(.w // "p", "q")`), inputs: strs})
 		for _, repl := range []string{`"<\(.x // .a // "-")>"`, `"x"`} {
-			out = append(out, c07SweepCase{call("sub", q, repl), strs})
-			out = append(out, c07SweepCase{call("gsub", q, repl), strs})
-			out = append(out, c07SweepCase{call("sub", q, repl, `"g"`), strs})
-			out = append(out, c07SweepCase{call("gsub", q, repl, `"i"`), strs})
+			out = append(out, c07SweepCase{f: call("sub", q, repl), inputs: strs})
+			out = append(out, c07SweepCase{f: call("gsub", q, repl), inputs: strs})
+			out = append(out, c07SweepCase{f: call("sub", q, repl, `"g"`), inputs: strs})
+			out = append(out, c07SweepCase{f: call("gsub", q, repl, `"i"`), inputs: strs})
 		}
 	}
 	plain := func(kind, fn, text string, inputs []any) {
 		n := c07N(kind, false, text)
 		n.atomic = c07TopLevelAtomic(text)
 		n.fn = fn
-		out = append(out, c07SweepCase{n, inputs})
+		out = append(out, c07SweepCase{f: n, inputs: inputs})
 	}
 	for _, p := range [][2]string{{"explode/0", "explode"}, {"implode/0", "explode | implode"}, {"tojson/0", "tojson"}, {"tostring/0", "tostring"}, {"@json", `@json "v=\(.)"`},
 		{"@text", `@text "v=\(.)"`}, {"ascii_downcase/0", "ascii_downcase"}, {"ltrimstr/1", `ltrimstr("a")`}, {"rtrimstr/1", `rtrimstr("c")`}, {"debug/0", "debug"}, {"debug/1", `debug("m: \(.)")`},
@@ -86,6 +91,15 @@ func c07BuildSweep() []c07SweepCase {
 		{"tojson/0", "tojson | explode | implode"}, {"tojson/0", ". + 1 | tojson"}, {"tojson/0", ". * 2 | tojson"}, {"tojson/0", "-(.) | tojson"}, {"tojson/0", ". / 3 | tojson"}} {
 		plain("call", p[0], p[1], vals)
 	}
+	// uncaught errors of every value kind, raised in different ways
+	for _, f := range []string{"error", "error(.)", "1, error", "[.] | .[0] | error", "try error catch error", "try error catch error(.)", "def f: error; f", "if . then error else error end",
+		". as $v | error($v)", "label $out | error", "try (try error catch error) catch error(.)", "{a: .} | error(.a)", "(1, 2) | if . == 2 then error(null) else . end",
+		"first(., error)", "[.[]?] | error(.[0])", "error(null)", "error(false)", ".missing? // null | error", "try error(\"inner\") catch error(null)", "reduce (1, 2) as $i (.; error)", "limit(1; error)", "isvalid(error) , error", "error | 1", ".. | error"} {
+		n := c07N("call", false, f)
+		n.atomic = c07TopLevelAtomic(f)
+		n.fn = "error/uncaught"
+		out = append(out, c07SweepCase{f: n, inputs: c07ErrorValues, uncaught: true})
+	}
 	// the whole set of values at once through the JSON writer
 	plain("call", "tojson/0", "tojson", []any{c07Copy(vals)})
 	return out
@@ -93,6 +107,10 @@ func c07BuildSweep() []c07SweepCase {
 
 func (w *c07Worker) sweepCase(id int, sc c07SweepCase) {
 	run := w.run
+	if sc.uncaught {
+		w.sweepUncaught(id, sc)
+		return
+	}
 	batch := c07N("sweep", true, "[.[] | try [", sc.f, "] catch \"E\"]")
 	cli := id%10 == 0
 	run.Count("sweep:cases", 1)
@@ -129,4 +147,32 @@ func (w *c07Worker) sweepCase(id int, sc c07SweepCase) {
 		}
 	}
 	w.report(id, batch, sc.inputs, cli, o)
+}
+
+func (w *c07Worker) sweepUncaught(id int, sc c07SweepCase) {
+	run := w.run
+	run.Count("sweep:cases", 1)
+	run.Count("builtin:"+sc.f.fn, 1)
+	for _, in := range sc.inputs {
+		for _, cli := range []bool{false, true} {
+			o := w.check(sc.f.String(), in, cli)
+			run.Eval(1)
+			if o.inconcl != "" {
+				run.Inconclusive(o.inconcl)
+				continue
+			}
+			if o.kind != "" {
+				run.Count("disagreement:"+o.kind, 1)
+				w.report(id, c07CloneNode(sc.f), in, cli, o)
+				return
+			}
+			run.Count("outputs-compared", int64(len(o.ref.outs)))
+			if o.ref.errored {
+				run.Count(map[bool]string{true: "sweep:uncaught-error-both:cli", false: "sweep:uncaught-error-both:eval"}[cli], 1)
+			} else {
+				run.Count("sweep:uncaught-forms-that-did-not-fail", 1)
+			}
+		}
+	}
+	run.Distinct("sweep:uncaught:" + sc.f.String())
 }
